@@ -1202,8 +1202,6 @@ def judge(case, out, site, idx, all_sites):
         return ('outside', 'pointer-ness of %s unclear' % shape)
     if name == 'transfer':
         if len(opts) != 1 or opts[0] not in TRANSFER_MODES:
-            if site.kind == 'inst' and not opts:
-                return ('outside', 'bare transfer on instance parameter (crash class)')
             return ('invalid', ['transfer-ownership'])
         if has_type:
             return ('outside', 'type overridden')
@@ -1388,9 +1386,9 @@ def scope_override_class(case, out, site, all_sites):
     failure class, or None when none of the known mechanisms explains it."""
     got = attrs_of(site.node).get('scope')
     if got == 'notified' and autodetected_ref(out, site, 'destroy') is not None:
-        return 'valid-overridden-by-autodetection:scope'      # second loop of pass 3
+        return 'explicit-callback-annotation-overridden-by-autodetection'      # second loop of pass 3
     if got == 'async' and ty_name(site.node['ty']) in ('GLib.DestroyNotify', 'Gio.AsyncReadyCallback'):
-        return 'valid-overridden-by-autodetection:scope'      # first loop of pass 3 (well-known types)
+        return 'explicit-callback-annotation-overridden-by-autodetection'      # first loop of pass 3 (well-known types)
     if got == 'notified':
         order = [p['name'] for p in case['params'] if not p.get('ellipsis')]
         for s in all_sites:
@@ -1419,73 +1417,49 @@ def crash_class(case, res):
         case['params'][-1]['type']['base'] == 'GError' and case['params'][-1]['type'].get('depth') == 2
     if text.startswith('ValueError: Unknown argument'):
         if kind in ('method', 'vfunc') and 'self' in refs:
-            return 'crash:reference-to-instance-parameter'
+            return 'crash:reference-to-parameter-without-index'
         if last_is_error and case['params'][-1]['name'] in refs:
-            return 'crash:reference-to-gerror-parameter'
-    if text.startswith('AssertionError: parent not a callable') and kind == 'signal' and case.get('retdoc') and \
-            any(parse_ann(a)[0] == 'array' and any(x.startswith('length=') for x in parse_ann(a)[1])
-                for a in case['retdoc']['anns']):
-        return 'crash:signal-return-array-length'
+            return 'crash:reference-to-parameter-without-index'
     if text.startswith("AttributeError: 'NoneType' object has no attribute 'endswith") and kind == 'signal' and has_type:
         return 'crash:signal-type-override-without-ctype'
-    if text.startswith('AssertionError') and kind == 'signal' and has_type:
+    if text.startswith('AssertionError') and not text.startswith('AssertionError: parent not a callable') \
+            and kind == 'signal' and has_type:
         return 'crash:signal-unknown-type'
-    if text.startswith('IndexError: list index out of range') and kind == 'method':
-        for d in case['doc']:
-            if d['name'] == 'self' and any(a.strip() == 'transfer' for a in d['anns']):
-                return 'crash:bare-transfer-on-instance-parameter'
     return 'crash:other:' + re.sub(r'[0-9]+', 'N', text)[:80]
 
 
 # --------------------------------------------------------------------------- evaluation
-# Failing-input classes found on the UNCHANGED tree (see the final report / known_findings):
-# key -> what.  They are routed through ctx.report_failure as known so the run passes; any
-# failure whose key is not listed here is a violation.
-_BYVAL = ('(%s) on a by-value %s (not a pointer) is accepted silently and written to the GIR; the statement '
-          'requires a warning and unchanged output for nullable/transfer on non-pointers '
-          '(_is_pointer_type treats everything that is not a basic type as a pointer)')
+# Failing-input classes that exist on the UNCHANGED tree, one key per CAUSE in /repo (the same keys as
+# known_findings.json): key -> what.  They are routed through ctx.report_failure as known so the run
+# passes; any failure whose key is not listed here is a violation.
+# Repaired in /repo and no longer suppressed (their inputs stay in corpus/C01/fixed_regressions.json):
+# bare (transfer) on the instance parameter (081dd14), unknown transfer / scope words written (0c5d020),
+# Returns: (array length=p) on a signal (280bbea).
 PENDING_FINDINGS = {
-    'crash:bare-transfer-on-instance-parameter':
-        '`@self: (transfer)` on a method: IndexError in _check_instance_parameter instead of a warning',
-    'crash:reference-to-instance-parameter':
-        '(closure self)/(destroy self)/(array length=self) naming the instance parameter: ValueError from '
-        'get_parameter_index in pass 3 / the writer instead of a warning',
-    'crash:reference-to-gerror-parameter':
-        '(closure error)/(destroy error)/(array length=error) naming the trailing GError** parameter that '
-        '_pass3_callable_throws pops: ValueError in the writer instead of a warning',
-    'crash:signal-return-array-length':
-        'Returns: (array length=p) on a signal: _write_signal passes no parent, _write_type asserts',
+    'crash:reference-to-parameter-without-index':
+        '(closure P)/(destroy P)/(array length=P) where P is the instance parameter or the trailing GError** that '
+        '_pass3_callable_throws pops: ValueError from get_parameter_index (pass 3 / the writer) instead of a warning',
     'crash:signal-type-override-without-ctype':
-        '(type gint) + (nullable)/(transfer) on a signal parameter whose type came from the dump (no C type): '
-        "_is_pointer_type calls None.endswith",
+        '(type gint) + (nullable)/(allow-none)/(transfer) on a signal parameter whose type came from the dump (no C '
+        'type): _is_pointer_type calls None.endswith',
     'crash:signal-unknown-type':
         '(type Unknown) on a signal parameter / return value: Type without ctype, assertion in Type.clone or '
         'IntrospectablePass (unresolved_string)',
-    'not-optional-changes-nullable:param':
-        '(not optional) is implemented as (not nullable): it clears nullable="1" (documentation: it only says the '
-        'caller cannot pass NULL for an out parameter)',
-    'not-optional-clears-nullable:param':
-        '(nullable) (not optional): nullable="1" is dropped because any (not ...) sets not_nullable',
-    'not-optional-keeps-optional':
-        '(optional) (not optional) / (allow-none) (not optional) on an out parameter: optional="1" is still written, '
-        '(not optional) does not override',
+    'not-optional-treated-as-not-nullable':
+        '(not optional) is implemented as (not nullable): it clears nullable="1" (also an explicit (nullable)) and does '
+        'not take optional="1" away from an (optional)/(allow-none) out parameter',
     'pointer-to-basic-alias-rejects-nullable':
-        '(nullable) on `FooInt *p` / `GQuark *p` (pointer to an alias of a basic type): rejected with "only valid for '
-        'pointer types" because _is_pointer_type looks at the alias target\'s own ctype',
-    'pointer-to-basic-alias-rejects-allow-none':
-        '(allow-none) on a pointer to an alias of a basic type: rejected as non-pointer (same cause)',
-    'unknown-transfer-mode-written':
-        '(transfer bogus): the parser warns but the transformer writes transfer-ownership="bogus"',
-    'unknown-scope-written':
-        '(scope bogus) on a callback parameter: the parser warns but scope="bogus" is written',
-    'valid-overridden-by-autodetection:closure':
-        'an explicit (closure X) is overwritten in pass 3 by the user_data autodetection (a later gpointer *data)',
-    'valid-overridden-by-autodetection:destroy':
-        'an explicit (destroy X) is overwritten in pass 3 by a later GDestroyNotify parameter',
-    'valid-overridden-by-autodetection:scope':
-        'an explicit (scope X) on a callback parameter is overwritten in pass 3: by "notified" when a later '
-        'GDestroyNotify parameter is autodetected as its destroy notify, by "async" when the parameter itself is a '
-        'GDestroyNotify / GAsyncReadyCallback',
+        '(nullable) / (allow-none) on a pointer to an alias of a basic type (`FooInt *p`, `GQuark *p`): rejected with '
+        '"only valid for pointer types" because _is_pointer_type looks at the alias target\'s own ctype',
+    'by-value-non-basic-accepts-pointer-annotation':
+        '(nullable) / (allow-none) on a by-value enum, flags, struct, union, boxed or object, and (transfer none|full) '
+        'on a by-value enum or flags (pointer depth 0, direction in or return value) are accepted silently and '
+        'written to the GIR; the statement requires a warning and unchanged output (_is_pointer_type treats '
+        'everything that is not a basic type as a pointer)',
+    'explicit-callback-annotation-overridden-by-autodetection':
+        'an explicit (scope X) / (closure X) / (destroy X) on a callback parameter is overwritten by '
+        '_pass3_callable_callbacks (later GDestroyNotify => destroy + scope notified; later gpointer *data => closure; '
+        'GDestroyNotify / GAsyncReadyCallback parameter => scope async)',
     'valid-overridden-by-destroy-reference:scope':
         'an explicit (scope X) on callback parameter P is overwritten by "notified" when a LATER parameter carries '
         '(destroy P) (_apply_annotations_param_callback sets destroy_param.scope unconditionally; with the two '
@@ -1493,50 +1467,8 @@ PENDING_FINDINGS = {
 }
 # (transfer none|full) is only judged invalid on a by-value enum/flags: on a by-value struct or object the
 # oracle stays 'outside' (the transformer's own message lists struct and object types as valid sites)
-for _shape, _anns in (('enum', ('nullable', 'allow-none', 'transfer/none', 'transfer/full')),
-                      ('object', ('nullable', 'allow-none')), ('record', ('nullable', 'allow-none'))):
-    for _ann in _anns:
-        PENDING_FINDINGS['by-value-%s-accepts-%s' % (_shape, _ann)] = _BYVAL % (_ann.replace('/', ' '), _shape)
-
-
-# Proposed smaller key set (one key per CAUSE in /repo, see the report): old key -> merged key.  A merged
-# key is used as soon as known_findings.json lists it (ctx.is_known); until then the old keys above
-# keep working, so the integrator can switch the file in one step.
-_BYVAL_MERGED = 'by-value-non-basic-accepts-pointer-annotation'
-MERGED_KEYS = {
-    'pointer-to-basic-alias-rejects-allow-none': 'pointer-to-basic-alias-rejects-nullable',
-    'not-optional-changes-nullable:param': 'not-optional-treated-as-not-nullable',
-    'not-optional-clears-nullable:param': 'not-optional-treated-as-not-nullable',
-    'not-optional-keeps-optional': 'not-optional-treated-as-not-nullable',
-    'valid-overridden-by-autodetection:closure': 'explicit-callback-annotation-overridden-by-autodetection',
-    'valid-overridden-by-autodetection:destroy': 'explicit-callback-annotation-overridden-by-autodetection',
-    'valid-overridden-by-autodetection:scope': 'explicit-callback-annotation-overridden-by-autodetection',
-    'crash:reference-to-instance-parameter': 'crash:reference-to-parameter-without-index',
-    'crash:reference-to-gerror-parameter': 'crash:reference-to-parameter-without-index',
-}
-for _k in list(PENDING_FINDINGS):
-    if _k.startswith('by-value-'):
-        MERGED_KEYS[_k] = _BYVAL_MERGED
-MERGED_FINDINGS = {
-    _BYVAL_MERGED:
-        '(nullable), (allow-none), (transfer none) or (transfer full) on a by-value enum, flags, struct, union, boxed or '
-        'object (pointer depth 0, direction in or return value) is accepted silently and written to the GIR; the '
-        'statement requires a warning and unchanged output (_is_pointer_type treats everything that is not a basic '
-        'type as a pointer)',
-    'pointer-to-basic-alias-rejects-nullable':
-        '(nullable) / (allow-none) on a pointer to an alias of a basic type (`FooInt *p`, `GQuark *p`): rejected with '
-        '"only valid for pointer types" because _is_pointer_type looks at the alias target\'s own ctype',
-    'not-optional-treated-as-not-nullable':
-        '(not optional) is implemented as (not nullable): it clears nullable="1" (also an explicit (nullable)) and does '
-        'not take optional="1" away from an (optional)/(allow-none) out parameter',
-    'explicit-callback-annotation-overridden-by-autodetection':
-        'an explicit (scope X) / (closure X) / (destroy X) on a callback parameter is overwritten by '
-        '_pass3_callable_callbacks (later GDestroyNotify => destroy + scope notified; later gpointer *data => closure; '
-        'GDestroyNotify / GAsyncReadyCallback parameter => scope async)',
-    'crash:reference-to-parameter-without-index':
-        '(closure P)/(destroy P)/(array length=P) where P is the instance parameter or the trailing GError** that '
-        '_pass3_callable_throws pops: ValueError from get_parameter_index (pass 3 / the writer) instead of a warning',
-}
+_BYVAL_SITES = {'enum': ('nullable', 'allow-none', 'transfer/none', 'transfer/full'),
+                'object': ('nullable', 'allow-none'), 'record': ('nullable', 'allow-none')}
 
 
 def site_key(site):
@@ -1598,21 +1530,16 @@ def all_buckets(res):
 
 
 def finding_class(key):
-    """coarser keys for the failure classes that exist on the unchanged tree (everything else keeps
-    its exact key, so a new kind of failure is never absorbed by a pending finding)"""
+    """the known-finding key of a failure class that exists on the unchanged tree (everything else
+    keeps its exact key, so a new kind of failure is never absorbed by a known finding)"""
     m = re.match(r'(invalid-no-warning|invalid-changes-output):(nullable|allow-none|transfer/none|transfer/full):'
                  r'(param|ret|inst):(enum|object|record):0:(in|ret)$', key)
-    if m and 'by-value-%s-accepts-%s' % (m.group(4), m.group(2)) in PENDING_FINDINGS:
-        return 'by-value-%s-accepts-%s' % (m.group(4), m.group(2))
-    m = re.match(r'valid-not-reflected:(nullable|allow-none):(param|ret):aliasbasic:[12]:(in|ret):nullable$', key)
-    if m:
-        return 'pointer-to-basic-alias-rejects-%s' % m.group(1)
-    if re.match(r'invalid-changes-output:transfer/unknown-mode:', key):
-        return 'unknown-transfer-mode-written'
-    if re.match(r'invalid-changes-output:scope/bad-option:param:callback:0:', key):
-        return 'unknown-scope-written'
+    if m and m.group(2) in _BYVAL_SITES[m.group(4)]:
+        return 'by-value-non-basic-accepts-pointer-annotation'
+    if re.match(r'valid-not-reflected:(nullable|allow-none):(param|ret):aliasbasic:[12]:(in|ret):nullable$', key):
+        return 'pointer-to-basic-alias-rejects-nullable'
     if re.match(r'valid-not-reflected:not/optional:param:.*:(out|inout):no$', key):
-        return 'not-optional-keeps-optional'
+        return 'not-optional-treated-as-not-nullable'
     return key
 
 
@@ -1625,9 +1552,6 @@ class Evaluator(object):
 
     def fail(self, key, what, case, detail):
         key = finding_class(key)
-        merged = MERGED_KEYS.get(key)
-        if merged is not None and self.ctx.is_known(merged) is not None:
-            key = merged
         what += '\n%s %s(%s) -> %s' % (case['kind'], case['symbol'], ', '.join(
             '...' if p.get('ellipsis') else '%s%s%s %s' % ('const ' if p['type'].get('const') else '', p['type']['base'],
                                                           '*' * p['type'].get('depth', 0) +
@@ -1681,11 +1605,11 @@ class Evaluator(object):
                             continue
                         key = 'valid-not-reflected:%s:%s:%s' % (acls, skey, desc.split('=')[0].split(' ')[0])
                         if verdict[0] == 'valid:with-not-optional':
-                            key = 'not-optional-clears-nullable:%s' % site.kind
+                            key = 'not-optional-treated-as-not-nullable'
                         if verdict[0] == 'valid:ref':
                             k = autodetected_ref(out, site, name)
                             if k is not None and attrs_of(out['params'][k]).get('name') != opts[0]:
-                                key = 'valid-overridden-by-autodetection:%s' % name
+                                key = 'explicit-callback-annotation-overridden-by-autodetection'
                         if verdict[0] == 'valid:scope':
                             key = scope_override_class(case, out, site, sites) or key
                         self.fail(key, '(%s) on %s %s [%s] is valid but the GIR does not show %s: %s\n%s'
@@ -1696,7 +1620,7 @@ class Evaluator(object):
                         if r2 is not None:
                             s2 = Site(case, r2['out'], pname, [a for i, a in enumerate(anns) if i != idx])
                             if s2.node is not None and attrs_of(s2.node).get('nullable') != attrs_of(site.node).get('nullable'):
-                                self.fail('not-optional-changes-nullable:%s' % site.kind,
+                                self.fail('not-optional-treated-as-not-nullable',
                                           '(not optional) on %s %s changes the nullable attribute (%r -> %r); the '
                                           'documentation ties it to optional only\n%s'
                                           % (site.kind, pname, attrs_of(s2.node).get('nullable'),
@@ -1943,7 +1867,6 @@ def run(ctx):
         'exhaustive': (not ctx.quick()),
         'exhaustive_table_cases': n_table,
         'pending_findings': sorted(PENDING_FINDINGS),
-        'proposed_merged_keys': MERGED_KEYS,
     })
     ctx.assumptions.extend([
         'the C lexer/parser is not exercised: declarations enter as the symbol stream the lexer would deliver',
